@@ -199,6 +199,15 @@ func (cell c13cell) config(variant int) *cfg.Config {
 	case 2:
 		conf.Services[0].Scope = cfg.P("non_shared")
 	}
+	if cell.getter {
+		// the default is per configuration, an explicit setting per service: a service that says the opposite of the default
+		// (sorting first) must not change what a later one without a setting of its own gets
+		opposite := cell.defMust != "true"
+		conf.Services = append(conf.Services,
+			cfg.Service{Name: "aaFirst", Constructor: cfg.P(pkg + ".New"), Getter: cfg.P("GetAaFirst"), MustGetter: cfg.P(opposite)},
+			cfg.Service{Name: "mmMiddle", Constructor: cfg.P(pkg + ".New"), Getter: cfg.P("GetMmMiddle"), MustGetter: cfg.P(!opposite)},
+			cfg.Service{Name: "zzLast", Constructor: cfg.P(pkg + ".New"), Getter: cfg.P("GetZzLast")})
+	}
 	if cell.typ == "val" && cell.getter {
 		// value-typed failing getter as well (type-only zero value with a failing field)
 		conf.Services = append(conf.Services, cfg.Service{Name: "vbad", Type: cfg.P(pkg + ".Obj"), Getter: cfg.P("GetVBad"), MustGetter: tri(cell.must),
